@@ -218,6 +218,11 @@ def run_property(prop, tier, jobs, kinds, text, bounds, outside=(), extra_assump
                 if w: rep.violation("TransOffset:%s:%s" % (form, json.dumps(fobj["model"], sort_keys=True)[:200]), w + "  [%s]" % fobj["desc"], {"transoffset": fobj["model"], "form": form})
                 else: rep.spurious.append({"job": r["name"], "obligation": fobj["desc"], "model": fobj["model"]})
                 continue
+            if r["name"].startswith("convert:"):
+                w = tz_replay.check_convert_panel()
+                if w: rep.violation("convert:" + w[:80], w + "  [%s: %s]" % (r["name"], fobj["desc"]), {"convert_panel": True})
+                else: rep.spurious.append({"job": r["name"], "obligation": fobj["desc"], "model": fobj["model"]})
+                continue
             if r["name"].startswith("ExtendTransitions") or r["name"].startswith("calendar"):
                 # the model is over uninterpreted calendar / rule functions: confirm on a panel of concrete footers loaded natively
                 w = None; key = None; case = {"footer_panel": True}
@@ -272,6 +277,7 @@ def run_property(prop, tier, jobs, kinds, text, bounds, outside=(), extra_assump
 
 def replay_case(case):
     if "transoffset" in case: return tz_replay.check_transoffset(case["transoffset"], case["form"])
+    if case.get("convert_panel"): return tz_replay.check_convert_panel()
     if case.get("newyear_spill"): return tz_replay.check_newyear_spill()
     if case.get("footer_panel"): return tz_replay.check_footer_panel(case.get("base_year", 1990))
     return tz_replay.check_case(case["zone"], case.get("kind") or "break") or \
